@@ -75,6 +75,22 @@ Proof.
   apply Z.eqb_eq in H0, Hz. destruct i as [s o]. cbn in *. now subst.
 Qed.
 
+(** * The nesting limit *)
+Lemma chk_lt {A} d (r : res A) : (d < MAXD)%N -> chk d r = r.
+Proof. unfold chk. intros H. apply N.leb_gt in H. now rewrite H. Qed.
+
+Lemma chk_ge {A} d (r : res A) : (MAXD <= d)%N -> chk d r = Err 400.
+Proof. unfold chk. intros H. apply N.leb_le in H. now rewrite H. Qed.
+
+Lemma maxl_in {A} (f : A -> N) l x : In x l -> (f x <= maxl f l)%N.
+Proof.
+  unfold maxl. induction l as [|y r IH]; cbn [In fold_right]; [tauto |]. intros [->|H]; [lia |].
+  specialize (IH H). lia.
+Qed.
+
+Lemma maxl_forallb {A} (f : A -> N) l b : (maxl f l <= b)%N -> forall x, In x l -> (f x <= b)%N.
+Proof. intros H x Hx. pose proof (maxl_in f l x Hx). lia. Qed.
+
 (** * Lists *)
 Lemma perm_filter {A} (f : A -> bool) l l' :
   Permutation l l' -> Permutation (filter f l) (filter f l').
